@@ -155,3 +155,11 @@ def F7d():
     _, a_s = _run_asyncio(lambda reader: None, later=lambda reader: reader.feed_eof(), keep_alive_timeout=1.5)
     t = _run_trio([], keep_alive_timeout=1.5)
     return (t.get("handler_s", 0) >= 1.2 and a_s >= 1.2), f"handler finished {a_s:.2f}s after the peer's EOF on asyncio, {t.get('handler_s', -1):.2f}s on trio (keep_alive_timeout 1.5s)"
+
+
+SCENARIOS = {k: v for k, v in globals().items() if k.startswith("F") and callable(v)}
+
+if __name__ == "__main__":
+    import sys
+    for name in sys.argv[1:] or sorted(SCENARIOS):
+        print(name, SCENARIOS[name]())
